@@ -177,7 +177,8 @@ def check_problem(spec, calls, counters, violations):
     V = np.atleast_2d(lg["vary"])
     T = np.atleast_2d(lg["targets"])
     N = len(V)
-    njac = int(np.sum(np.array(lg["alpha"]) >= 0))
+    # (alpha is None on a row logged by a solver step that found the tolerances already met)
+    njac = sum(1 for a in lg["alpha"] if a is not None and a >= 0)
     wt = np.array([t.weight for t in S.targets], dtype=float)
     # (the row visited before row i: deterministic, different from i, favouring rows with other flags)
     far = []
